@@ -25,7 +25,7 @@ ASSUMPTIONS = [
     "under the processes executor block writes happen in worker processes and are not observed by this hook; it is run on single-threaded and threads",
 ]
 NSHARDS = {"quick": 16, "thorough": 32}
-PER_SHARD = {"quick": 100, "thorough": 1600}
+PER_SHARD = {"quick": 100, "thorough": 600}
 
 
 def shards(tier, seed):
@@ -135,8 +135,8 @@ def finalize(tier, merged):
     return {
         "rule": RULE,
         "floors": [
-            ("block writes observed", c.get("block_writes", 0), 20000 if tier == "quick" else 400000),
-            ("arrays whose declared metadata was compared with the stored array", c.get("backing_arrays_compared", 0), 1000 if tier == "quick" else 20000),
+            ("block writes observed", c.get("block_writes", 0), 20000 if tier == "quick" else 250000),
+            ("arrays whose declared metadata was compared with the stored array", c.get("backing_arrays_compared", 0), 1000 if tier == "quick" else 12000),
         ],
         "assumptions": ASSUMPTIONS,
     }
